@@ -356,3 +356,10 @@ fn hierarchy__order_and_restriction() {
     }
     println!("VERIF-COUNT hierarchy__order_and_restriction {n}");
 }
+
+impl AccessStructure {
+    /// test-only accessor used by the serialization checks in core
+    pub(crate) fn dimensions_for_verif(&self) -> impl Iterator<Item = (&String, &Dimension)> {
+        self.dimensions.iter()
+    }
+}
